@@ -1053,43 +1053,7 @@ fn placeholder() -> &'static str {
     "__placeholder"
 }
 
-/// Makes the invisible groups of `macro_rules!` fragments (`$e:expr`) visible: rustc does not honour them when it
-/// parses the output of a procedural macro, so `$ * $e` with `$e = 2 + 1` would otherwise mean `($ * 2) + 1`.
-/// Only fragments that are expressions with an operator are wrapped; lifetimes, paths, statements etc. stay as they are.
-fn parenthesize_invisible_groups(input: TokenStream) -> TokenStream {
-    fn needs_parens(ts: TokenStream) -> bool {
-        matches!(
-            syn::parse2::<syn::Expr>(ts),
-            Ok(syn::Expr::Binary(_)
-                | syn::Expr::Unary(_)
-                | syn::Expr::Cast(_)
-                | syn::Expr::Range(_)
-                | syn::Expr::Assign(_)
-                | syn::Expr::Closure(_)
-                | syn::Expr::Reference(_))
-        )
-    }
-    let mut ts = TokenStream::new();
-    for i in input {
-        if let TokenTree::Group(g) = &i {
-            let delimiter = match g.delimiter() {
-                proc_macro2::Delimiter::None if needs_parens(g.stream()) => {
-                    proc_macro2::Delimiter::Parenthesis
-                }
-                d => d,
-            };
-            let mut g2 = proc_macro2::Group::new(delimiter, parenthesize_invisible_groups(g.stream()));
-            g2.set_span(g.span());
-            ts.extend(once(TokenTree::Group(g2)));
-        } else {
-            ts.extend(once(i));
-        }
-    }
-    ts
-}
-
 fn dollar_token_to_placeholder(input: TokenStream) -> TokenStream {
-    let input = parenthesize_invisible_groups(input);
     replace_tokens(
         input,
         &|t| matches!(t, TokenTree::Punct(p) if p.as_char() == '$'),
